@@ -18,6 +18,7 @@ mod serde_dom;
 mod conn;
 mod node;
 mod gsrv;
+mod gevt;
 pub fn conn_flags() -> u64 {
     0xdf7fbd | (1 << 32) | (1 << 34) | (1 << 35)
 }
@@ -45,6 +46,7 @@ fn main() {
         "hsk" => conn::run_hsk,
         "node" => node::run_case,
         "gsrv" => gsrv::run_case,
+        "gevt" => gevt::run_case,
         _ => {
             eprintln!("unknown domain {domain}");
             std::process::exit(2);
